@@ -480,7 +480,9 @@ def run_sequence(ctx, spec, stats=None):
                 stale = d_stale <= 4 * t_k + 1e-9 * _n2(sref["k"]) and d_kf > 64 * max(d_stale, EPS * _n2(sref["k"]))
             except np.linalg.LinAlgError:
                 stale = False
-            stale = bool(stale or stale_state)
+            # classification rests on fact 1 (the anchored state itself); fact 2 only confirms it
+            ctx.count("stale_state_confirmed_by_gain_formula" if (stale and stale_state) else "stale_state_without_gain_confirmation" if stale_state else "no_stale_state")
+            stale = bool(stale_state)
         mode = "Kalman update" if resample else "no-redraw variant"
         mon = "post_eq_kf" if resample else "post_eq_noredraw"
         key = K_STALE if stale else ("posterior-ne-kf-resample" if resample else "posterior-ne-noredraw-variant")
